@@ -20,6 +20,6 @@ CFG = dict(
     assumptions=[],
 )
 MANIFEST = dict(
-    text="placeholder",
-    note="placeholder",
+    text="Coq theorems over the relational model: on every state reachable by any sequence of inserts/updates/deletes/index creations/drops over any schema, select (scan, hash index, ordered index + re-check), select_columnar (vectorised kernels + fallback; = the text path), limit/offset, cursor, count, min, max return exactly filter(evaluate) of the live rows; the exact-content invariant of every hash/ordered index is preserved by all DML/DDL; candidate-then-recheck is exact for any duplicate-free covering candidate list; the hash key respects == (refuted for raw float bits); update/delete touch exactly the satisfying rows. Shape facts of the Rust source (hash_key normalisation, index dispatch, re-check, limit after re-check, null/alive masks, exact float equality, NULL indexing of omitted columns) are regenerated on every run. The model is compared with the real engine on seeded DML/DDL traces under every strategy incl. QueryRouter::execute_parsed, and the property oracle is evaluated on the implementation's own select(True)/Condition::evaluate.",
+    note="Trusted: Coq kernel, gen_C04.py (regex shape recognisers), harness + driver. Modelled not verified: bitmap word packing/SIMD lanes, timeouts/limits, the transaction manager around update/delete, Bytes/Json columns, sum/avg and the streaming cursor (implementation-only oracle), DefaultHasher (modelled injective). Six defects found and fixed in /repo (4bad7dae, 4c0f8e9e, da1feec4, b7c1847b, d82b4f5c, 5aa58ff9).",
 )
